@@ -7,7 +7,9 @@
    Vocabulary (Proofs/CliVerifyOk.v):
      read : string -> option string            the text of the file at a path
      reads_as read parse path a                the role [path] is there, readable, and parses to [a]
-     strong_task_described read c t            t = StrongEquivalenceTask { left, right = the first /
+     strong_task_described read c t            Files::sort returns Ok on the path arguments (Model/Files.v:
+                                               no dangling link, no link to a containing directory) and
+                                               t = StrongEquivalenceTask { left, right = the first /
                                                second program file in Files::sort order, parsed;
                                                decomposition, formula_representation, direction as
                                                given; simplify = not --no-simplify;
@@ -78,6 +80,23 @@ Theorem CliVerify_external_task_flags :
     et_repr t = v_formula_representation c /\ et_bypass_tightness t = v_bypass_tightness c.
 Proof. exact external_task_flags. Qed.
 Print Assumptions CliVerify_external_task_flags.
+
+(* `Files::sort(files).context(..)?`: when the walk of the path arguments meets a dangling link or a
+   link to a directory that contains it (symbolic links are followed since /repo 8bcb21d), the command
+   ends with exit status 1 - nothing is read, nothing is written - whatever the other files are; and
+   a described task exists only when the walk succeeds *)
+Theorem CliVerify_sort_error :
+  forall read fuel c e, Files.sort (v_files c) = Files.WErr e -> run_verify_fuel read fuel c = VError.
+Proof. exact run_verify_sort_error. Qed.
+Print Assumptions CliVerify_sort_error.
+Theorem CliVerify_strong_task_sorted :
+  forall read c t, strong_task_described read c t -> exists files, Files.sort (v_files c) = Files.WOk files.
+Proof. exact strong_task_described_sorted. Qed.
+Print Assumptions CliVerify_strong_task_sorted.
+Theorem CliVerify_external_task_sorted :
+  forall read c t, external_task_described read c t -> exists files, Files.sort (v_files c) = Files.WOk files.
+Proof. exact external_task_described_sorted. Qed.
+Print Assumptions CliVerify_external_task_sorted.
 
 (* the described task is unique: file roles and parsing are deterministic *)
 Theorem CliVerify_strong_task_unique :
@@ -200,6 +219,19 @@ Proof. vm_compute. reflexivity. Qed.
 Example CliVerify_example_missing_program :
   run_verify_tree (ex_argv false) [CFile "a.lp" (lf "p :- q.")] = VError.
 Proof. vm_compute. reflexivity. Qed.
+(* symbolic links (F23, /repo 8bcb21d): a link to a regular file plays the role its OWN name gives it
+   and is read through; here `a.lp` is a link (to the text `p :- q.`), so it is the left program, as in
+   CliVerify_example_directory *)
+Example CliVerify_example_link_followed :
+  run_verify_tree (ex_argv false)
+    [CDir "d" [CFile "b.lp" (lf "p :- not not q."); CLink "a.lp" (CTFile (lf "p :- q.")); CLink "0.lp" CTSpecial]] =
+  run_verify_tree (ex_argv false) (ex_args true).
+Proof. vm_compute. reflexivity. Qed.
+(* a dangling link among the arguments or below them: exit status 1, although both programs are there *)
+Example CliVerify_example_dangling_link :
+  run_verify_tree (ex_argv false) (ex_args false ++ [CLink "z.txt" CTDangling]) = VError /\
+  run_verify_tree (ex_argv false) [CDir "d" [CFile "b.lp" (lf "p :- not not q."); CFile "a.lp" (lf "p :- q."); CLink "z" CTLoop]] = VError.
+Proof. split; vm_compute; reflexivity. Qed.
 (* --bypass-tightness reaches the task: a non-tight program is an error without it, a warning with it *)
 Definition nt_args : list cnode :=
   [CFile "a.lp" (lf "p :- p."); CFile "b.lp" (lf "p."); CFile "u.ug" (lf "output: p/0.")].
